@@ -392,7 +392,7 @@ fn main() {
                     clients.push(vec![cmd]);
                 }
                 let p = conc::Program { layer: "memc".into(), name: format!("tlc-{}", n), kind, init: init.clone(), policy: "none".into(), mem_limit: 0,
-                    keys: vec![b"ck".to_vec()], setup: concgen::setup(&init), clients };
+                    keys: vec![b"ck".to_vec()], setup: concgen::setup(&init), clients, post_tick: 0 };
                 let order: Vec<usize> = v["sched"].as_array().unwrap().iter().map(|x| x[0].as_u64().unwrap_or(1) as usize).collect();
                 let sites: Vec<String> = v["sched"].as_array().unwrap().iter().map(|x| x[1].as_str().unwrap_or("").to_string()).collect();
                 let r = conc::run_sched(&p, &[], Some(&order), &mut None, 400);
